@@ -165,6 +165,12 @@ impl Property for C07 {
             "export const a = <div v-foo={[]} />;",
             "export const a = <input v-model />;",
             "export const a = <C v-models={[[m, \"a-b\", [\"1x\"]]]} />;",
+            // D56 / D57
+            "export async function f() { return <Foo>{await g()}</Foo>; }",
+            "export function* h() { yield <Foo>{yield 1}</Foo>; }",
+            "export const p = <class.foo />;",
+            "/* @jsx import */\nexport const q = <div />;",
+            "/* @jsx class */\nexport const q = <div />;",
         ]
         .iter()
         .map(|s| {
